@@ -3,6 +3,7 @@
    tables: rotation (>> / <<), slicing, concatenation shift, flipping.
    Executable definitions only. *)
 From MV Require Import Base.
+From Coq Require String.
 
 Open Scope Z_scope.
 
@@ -19,10 +20,43 @@ Record part := P { pstart : Z; pend : Z; pstrand : strand }.
    two or more = CompoundLocation (operator "join") *)
 Definition loc := list part.
 
+(* a value of a /citation qualifier: a string ("[1]", or anything else) or, while
+   AssemblyManager.assemble has the inputs dereferenced, a Reference object (interned:
+   Biopython's Reference.__eq__ compares contents) *)
+Inductive qcit := QStr (s : String.string) | QRef (r : nat).
+
+(* feature.qualifiers (and feature.id): everything but "citation" interned as one number,
+   carried and never inspected; the "citation" entry — the only part of a feature the
+   library ever updates in place — as a value, None when the key is absent *)
+Record quals := Q { qid : nat; qcits : option (list qcit) }.
+Definition Q0 (n : nat) : quals := Q n None.
+Coercion Q0 : nat >-> quals.
+Bind Scope nat_scope with quals.
+
+Definition qcit_eqb (a b : qcit) : bool :=
+  match a, b with
+  | QStr s, QStr t => String.eqb s t
+  | QRef r, QRef u => Nat.eqb r u
+  | _, _ => false
+  end.
+Fixpoint qcits_eqb (a b : list qcit) : bool :=
+  match a, b with
+  | [], [] => true
+  | x :: a', y :: b' => qcit_eqb x y && qcits_eqb a' b'
+  | _, _ => false
+  end.
+Definition quals_eqb (a b : quals) : bool :=
+  Nat.eqb (qid a) (qid b) &&
+  match qcits a, qcits b with
+  | None, None => true
+  | Some x, Some y => qcits_eqb x y
+  | _, _ => false
+  end.
+
 Record feature := F {
   fsource : bool;        (* feature.type == "source" *)
   ftype   : nat;         (* any other type, interned *)
-  fquals  : nat;         (* qualifiers dict (and id), interned: carried, never inspected *)
+  fquals  : quals;       (* qualifiers dict (and id) *)
   floc    : loc
 }.
 
